@@ -1,6 +1,6 @@
-CONSTANTS Carriers = {"xds"} Vals = {"a", "b", "u"} WssWords = {} MaxRecv = 8 UnknownOnce = TRUE XdsGuard = FALSE
+CONSTANTS Carriers = {"xds"} Vals = {"a", "b", "u"} WssWords = {} MaxRecv = 8 UnknownOnce = TRUE XdsGuard = FALSE Calls = {"a", "b"}
 SPECIFICATION Spec
 CONSTRAINT Bounded
-INVARIANTS TypeOK Faithful
+INVARIANTS TypeOK Faithful XdsSettles
 PROPERTIES OnlyAfterRepeat NetworkMeansChange OneNetworkEvent CacheKept CacheDropped
 CHECK_DEADLOCK FALSE
